@@ -48,6 +48,20 @@ def survivorVerdict (ires : String) : Verdict :=
 def step (net : Net) (toks : List String) (rhs : String) : Net × Verdict :=
   match toks with
   | "reqjoinstab" :: _ => (net, survivorVerdict (splitRhs rhs).1)
+  | ["reqjoinfault", s, j] =>
+    -- a join request whose key hand-off fails (the joiner's Import is made to fail): the answer must be a
+    -- retryable refusal that changes nothing (judged by the oracle; the fault is not part of the model); when the
+    -- hand-off range was empty no Import happened and the line is an ordinary request
+    let (ires, d) := splitRhs rhs
+    if ires.startsWith "ok:" then ringStep spec net ["reqjoin", s, j] rhs
+    else match spec net net ["reqjoin", s, j] ires with
+      | some why => (net, .spec (why ++ " (key hand-off to the joiner failing)"))
+      | none =>
+        if ires != "err:ErrJoinTransferFailure" && !(lookupErrNames.contains ires) && ires != "err:ErrDuplicateJoinerID"
+            && ires != "err:ErrJoinInvalidState" && ires != "err:ErrJoinInvalidSuccessor" then
+          (net, .spec s!"join request whose hand-off failed answered with {ires}")
+        else if d == dump net then (net, .ok)
+        else (net, .spec "a refused join request (failed hand-off) changed the state of a node")
   | _ => ringStep spec net toks rhs
 
 def main : IO Unit := runLoop ([] : Net) step
